@@ -230,3 +230,17 @@ contract(M + "PCBO.add_constraint_ne_zero", props=["C02", "C14", "C16", "C19"], 
                                  "slackval(pre(self._ancilla), visited, log_trick) <= slackcap(visited, log_trick) and "
                                  "slack_next(pre(self._ancilla), visited, log_trick) == slack_next(pre(self._ancilla), visited, log_trick)",
                     "modifies": ["self._ancilla"]}})
+
+# ---------------------------------------------------------------------------------- is_solution_valid (C02/C03/C06/C08)
+# "is_solution_valid(x) is true exactly when every recorded constraint holds at x": for arbitrary lists of recorded
+# constraints (abstract objects with a value at the assignment), one list per relation.
+_VALID = " and ".join("cons_all(self, '%s', '%s')" % kr for kr in
+                      (("eq", "=="), ("ne", "!="), ("lt", "<"), ("le", "<="), ("gt", ">"), ("ge", ">=")))
+contract(M + "PCBO.is_solution_valid", props=["C02", "C03", "C06", "C08"],
+         instances=[{"self": "cmodel:PCBO", "solution": "bassign"}, {"self": "cmodel:PCSO", "solution": "sassign"}],
+         returns="bool", ensures=["iff(result, %s)" % _VALID],
+         note="recorded constraints abstracted to multisets of objects with a value at the assignment; "
+              "`solution` is the ghost assignment (it covers every variable of the constraints)")
+contract("qubovert._pcso:PCSO.is_solution_valid", props=["C03"],
+         instances=[{"self": "cmodel:PCSO", "solution": "sassign"}],
+         returns="bool", ensures=["iff(result, %s)" % _VALID])
